@@ -1,0 +1,8 @@
+//go:build !verif
+
+package amqp
+
+import "sync"
+
+func verifYield(site string)                     {}
+func verifAwaitLock(mu *sync.Mutex, site string) {}
